@@ -14,7 +14,7 @@
     code points), `CharText` (the ABNF's `char` production), `NoInsignificantWhitespace`,
     `Representable`, `utf8Encode`.
 -/
-import RumaModel.Lemmas.CanonicalSpec
+import RumaModel.Lemmas.CanonicalSurj
 namespace Ruma.Props.C01
 open Ruma Ruma.Canonical Ruma.Spec.CanonicalJson
 
@@ -136,8 +136,10 @@ theorem normalize_int_iff (i : Int) (c : JVal) :
     · intro h; cases h
     · intro h; exact absurd h.1 this
 
-/-- A number that is not an i64 integer for serde_json (fractions, exponents, `-0`, > u64: all of
-them reach ruma as `float`) is rejected. -/
+/-- A number that is not an i64 integer for serde_json is rejected. This holds by the construction of
+the model's `JVal.float` ("every number for which `as_i64` answers `None`"); *that* fractions,
+exponents, `-0` and numbers above u64 are such numbers is serde_json's number classification
+(external code) and is checked by the differential correspondence (T2) only, not by a theorem. -/
 theorem normalize_float_rejected : normalize .float = .error .intConvert := rfl
 
 /-- In general: a value is accepted iff every number in it, at any depth, is an integer within
@@ -181,7 +183,10 @@ theorem grammar_char_unique (c : Nat) (t t' : List Nat) (h : CharText c t) (h' :
 /-! ## No insignificant whitespace -/
 
 /-- Outside string literals the output consists of structural bytes only (`{}[]:,`, digits, `-`,
-the letters of `true false null`): no space, tab or line break between tokens. -/
+the letters of `true false null`): no space, tab or line break between tokens. (The statement also
+covers values containing `float`, which are not canonical and which `normalize` never returns; for
+them `encode` is the empty placeholder `[]` of `Model/Canonical.lean`, so this theorem and the next
+say nothing of interest about them.) -/
 theorem encode_no_whitespace (v : JVal) : NoInsignificantWhitespace (encode v) := by
   intro x hx
   have := outside_encode v [] x (by rw [List.append_nil]; exact hx)
@@ -234,6 +239,32 @@ theorem canonical_of_any_reordering (v : CVal) (h : v.WF) (w : JVal) (hs : Shuff
     (normalize w).map encode = .ok (canonicalBytes v) := by
   rw [← normalize_perm_deep _ _ hs]
   exact (canonical_of_spec_value v h).1
+
+/-- The three theorems above speak about in-memory values of the form `v.toJVal` (or reorderings
+of one). This one closes the gap for *every* input: whatever `normalize` accepts, if the strings
+and keys of the input are valid UTF-8 (`StringsUtf8`: each is the UTF-8 encoding of a sequence of
+Unicode scalar values — the invariant of a Rust `String`), the serialised result is canonical JSON
+in the specification's sense, i.e. it is the specification's byte string of some well-formed
+specification value. Uses that `CVal.toJVal` is onto the canonical values with valid UTF-8 strings
+(`toJVal_surjective`, `Lemmas/CanonicalSurj.lean`). -/
+theorem canonical_of_normalize (v c : JVal) (h : normalize v = .ok c) (hu : StringsUtf8 v) :
+    IsCanonicalJson (encode c) :=
+  encode_isCanonicalJson c (normalize_sorted v c h) (normalize_stringsUtf8 v c h hu)
+
+/-- The same for any canonical in-memory value (however it was obtained). -/
+theorem canonical_of_canonical_value (c : JVal) (h : IsCanonical c) (hu : StringsUtf8 c) :
+    IsCanonicalJson (encode c) :=
+  encode_isCanonicalJson c h hu
+
+/-- `StringsUtf8` holds on a non-trivial input (an astral character in a key and in a value,
+entries out of order, a duplicate key), and `normalize` accepts it. -/
+example : StringsUtf8 (.obj [(bs "b", .str [240, 159, 152, 128]), ([240, 144, 128, 128], .arr [.int 1]),
+      (bs "b", .null)]) ∧
+    normalize (.obj [(bs "b", .str [240, 159, 152, 128]), ([240, 144, 128, 128], .arr [.int 1]),
+      (bs "b", .null)]) = .ok (.obj [(bs "b", .null), ([240, 144, 128, 128], .arr [.int 1])]) := by
+  refine ⟨⟨⟨[0x62], ?_, by decide⟩, ⟨[0x1F600], ?_, by decide⟩, ⟨[0x10000], ?_, by decide⟩, ⟨trivial, trivial⟩,
+    ⟨[0x62], ?_, by decide⟩, trivial, trivial⟩, by rfl⟩ <;>
+  · intro c hc; simp at hc; subst hc; unfold IsScalar; omega
 
 example : (CVal.obj [([0xFFFF], .int 2), ([0x10000], .str [0x1F600, 10])]).WF := by
   refine ⟨by unfold KeysAscending; decide, ?_, ?_, ?_, ?_, trivial⟩
@@ -293,6 +324,8 @@ example : IsCanonical (.obj [(bs "a", .arr [.int (-5), .str [34, 10, 240, 159, 1
 #print axioms encode_eq_spec
 #print axioms canonical_of_spec_value
 #print axioms canonical_of_any_reordering
+#print axioms canonical_of_normalize
+#print axioms canonical_of_canonical_value
 #print axioms decode_encode
 #print axioms encode_injective
 #print axioms decode_encode_normalize
